@@ -265,6 +265,11 @@ End EnsureDir.
 (* write_atomic: path_tmp = filename + '.tmp-' + str(random.randint(0, 99999999)) *)
 Definition tmp_suffix (r : Z) : str := [46; 116; 109; 112; 45] ++ dec_str r.     (* '.tmp-' *)
 
+(* ------------------------------------------------------------------ cache/legend.py: LegendCache.store / load *)
+(* legend.location = os.path.join(self.cache_dir, hash) + '.' + self.file_ext, hash = legend_hash(id, scale) = the md5 hex
+   digest of the legend identifier and str(scale) (scale: float or None, see WMSLegendGraphicRequestParams._get_scale) *)
+Definition legend_location (cache_dir hash : str) (ext : string) : str := join1 cache_dir hash ++ 46 :: s2z ext.
+
 (* ------------------------------------------------------------------ multiapp *)
 Fixpoint lstrip47 (s : str) : str :=
   match s with
